@@ -4,7 +4,8 @@
 # Seeded patches were made against the pinned commit; when a later "fix:" commit
 # touches the same lines the patch is applied with a 3-way merge and, on
 # conflict, the seeded side wins for the conflicting hunks.
-P=$(readlink -f "$1"); ID=$2; TIER=${3:-quick}; shift 3
+P=$(readlink -f "$1"); ID=$2; TIER=${3:-quick}
+if [ $# -ge 3 ]; then shift 3; else shift $#; fi
 cd /repo || exit 3
 if [ -n "$(git status --porcelain)" ]; then echo "/repo is not clean"; exit 3; fi
 restore() { git -C /repo reset -q --hard HEAD; git -C /repo clean -fdq; }
